@@ -26,8 +26,7 @@ RULE = ("behaviour-tree programs with 1-6 deferred resolver calls (modes S/P/C, 
         "lists, non-null, ResolverError / RuntimeError at any field) x 5 configurations (BlockingExecutor; Executor on BlockingRuntime, AsyncIORuntime without and with thread offload, ThreadPoolRuntime); asyncio and thread pool "
         "under every admissible completion order (depth-first replay, exhaustive up to the tier's bound, sampled "
         "beyond); thread pool also with every subset of the submitted calls completing before submit returns "
-        "(small operations, failures at every position, exhaustive; "
-        "beyond); non-trivial = a deferred configuration with at least two completion orders or a failure; "
+        "(configuration poole: small operations, failures at every position, exhaustive); non-trivial = a deferred configuration with at least two completion orders or a failure; "
         "distinct = distinct (program, configuration)")
 
 CFG = {"bexec": "CBlockingExec", "brt": "CBlockingRt", "aio": "CAsyncio", "aiot": "CAsyncio", "pool": "CPool",
